@@ -14,7 +14,7 @@ REPO = "/repo"
 
 
 def make_scratch(patch, tag=None):
-    dst = os.path.join(VERIF, ".work", "scratch", tag or str(os.getpid()))
+    dst = os.path.join(os.environ.get("VERIF_SCRATCH", "/tmp/verif-scratch"), tag or str(os.getpid()))
     shutil.rmtree(dst, ignore_errors=True)
     os.makedirs(os.path.dirname(dst), exist_ok=True)
     shutil.copytree(REPO, dst, ignore=shutil.ignore_patterns("target", ".git"))
